@@ -151,6 +151,50 @@ pub fn run(r: &mut Report, ctx: &Ctx) {
         );
     }
 
+    #[cfg(feature = "explore")]
+    if ctx.want("histories-large") {
+        use crate::explore::*;
+        // block-sized pieces: a change that treats whole 64 / 1024 / 4096-byte blocks specially needs them
+        let horizon: u64 = if quick { 9000 } else { 20000 };
+        let pieces: Vec<u32> = vec![0, 1, 3, 4, 5, 63, 64, 65, 127, 128, 1000, 1024, 4095, 4096, 4097];
+        let suffixes: Vec<u32> = vec![1, 4, 64];
+        let insts: Vec<(usize, Stream)> = if quick {
+            vec![(0, Stream::Mixed), (1, Stream::Mixed), (4, Stream::A40e)]
+        } else {
+            (0..5).flat_map(|v| [(v, Stream::Mixed), (v, Stream::A40e)]).collect()
+        };
+        r.section(
+            "histories-large",
+            "the same explicit-state search with block-sized piece lengths {0,1,3,4,5,63,64,65,127,128,1000,1024,4095,4096,4097} and a longer horizon, so that every combination of 'piece is / is not a multiple of 64, 1024, 4096' and tail fill level occurs in every order; states = unique real states; non-trivial = unique states",
+            &format!("horizon n <= {horizon}, {} instances", insts.len()),
+            true,
+            |s| {
+                let insts = &insts;
+                let pieces = &pieces;
+                let suffixes = &suffixes;
+                s.acc = par_for(insts.len() as u64, 1, |idx, acc| {
+                    let (v, st) = insts[idx as usize];
+                    fn go<V: Variant>(st: Stream, horizon: u64, pieces: &[u32], suffixes: &[u32]) -> ExploreResult {
+                        explore(GenModel::<V>::fresh(st, horizon, pieces.to_vec(), suffixes.to_vec()), 4)
+                    }
+                    let res: ExploreResult = with_variant!(v, go(st, horizon, pieces, suffixes));
+                    acc.evals += res.unique_states;
+                    acc.transitions += res.generated;
+                    acc.nontrivial += res.unique_states;
+                    acc.outcomes.insert(res.unique_states);
+                    if let Some((msg, replay)) = &res.violation {
+                        acc.fail(idx, "histories-large", msg.clone(), replay.clone());
+                    } else if !res.horizon_reached {
+                        acc.fail(1000 + idx, "histories-large", "MACHINERY: horizon not reached".into(), json!({"kind": "machinery"}));
+                    }
+                    acc.sample(idx, || json!({"variant": VARIANT_NAMES[v], "stream": st.name(), "unique_states": res.unique_states, "generated_states": res.generated, "max_depth": res.max_depth}));
+                });
+                s.states = s.acc.evals;
+                s.extra.insert("traces_validated_against_impl".into(), json!(s.acc.transitions));
+            },
+        );
+    }
+
     if ctx.want("splits") {
         let streams = [Stream::Mixed, Stream::A40e];
         let plan: Vec<(usize, usize)> = if quick { vec![(13, 3), (64, 3), (140, 2)] } else { vec![(13, 4), (64, 4), (140, 3), (600, 2)] };
